@@ -6,8 +6,10 @@ package app
 
 import (
 	"fmt"
+	"math/big"
 	"regexp"
 	"strconv"
+	"strings"
 	"testing"
 
 	"verif.local/vlib/ora"
@@ -106,13 +108,15 @@ func TestVerifC04(t *testing.T) {
 				{"number", -1, 0, 60, vfAtoStr(frac(1, 4)), frac(1, 4)}, {"time", 2, 0, 1, vfAtoStr(frac(1, 4)), frac(1, 4)},
 				{"number", -1, 1000, -1, vfAtoStr(segDurMS - 40), segDurMS - 40}, {"tlnr", -1, 0, 0, vfAtoStr(frac(3, 2)), frac(3, 2)},
 				{"number", -1, 0, -1, "inf", 0}, {"number", 4, 1000, 1, "inf", 0}, {"time", 7, 1_700_000_000, 60, "", 0},
+				// offsets that are not a whole number of milliseconds: the availability instant then lies between two request instants
+				{"number", -1, 0, 60, "0.6667", 666}, {"time", -1, 1000, 7, "0.3333", 333}, {"tlnr", 2, 0, 60, "0.0004", 0},
 			}
 			if rp.ContentType == "image" {
 				cfgs = []vfC04Cfg{{"number", -1, 0, -1, "", 0}, {"time", 3, 1000, 1, "", 0}, {"tlnr", -1, 0, 0, vfAtoStr(frac(1, 4)), frac(1, 4)}}
 			}
 			if !r.Thorough() {
 				k := (wi + caseNo + int(r.Seed)) % len(cfgs)
-				cfgs = []vfC04Cfg{cfgs[0], cfgs[1%len(cfgs)], cfgs[(3+k)%len(cfgs)], cfgs[(6+k)%len(cfgs)], cfgs[(9+k)%len(cfgs)]}
+				cfgs = []vfC04Cfg{cfgs[0], cfgs[1%len(cfgs)], cfgs[(3+k)%len(cfgs)], cfgs[(6+k)%len(cfgs)], cfgs[(9+k)%len(cfgs)], cfgs[len(cfgs)-1-k%3]}
 			}
 			for _, cfg := range cfgs {
 				type pos struct {
@@ -140,8 +144,36 @@ func TestVerifC04(t *testing.T) {
 	}
 }
 
+// vfAtoUS parses an availabilityTimeOffset given in seconds with up to 6 decimals into microseconds (exactly).
+func vfAtoUS(s string) int64 {
+	if s == "" || s == "inf" {
+		return 0
+	}
+	ip, fp, _ := strings.Cut(s, ".")
+	for len(fp) < 6 {
+		fp += "0"
+	}
+	i, _ := strconv.ParseInt(ip, 10, 64)
+	f, _ := strconv.ParseInt(fp[:6], 10, 64)
+	return i*1_000_000 + f
+}
+
+// vfAvailExact = first whole millisecond t with t >= AST + end/timescale - ato (exact integers).
+func vfAvailExact(end uint64, ts uint64, startS int64, atoUS int64) int64 {
+	num := new(big.Int).Mul(new(big.Int).SetUint64(end), big.NewInt(1_000_000))
+	num.Sub(num, new(big.Int).Mul(big.NewInt(atoUS), new(big.Int).SetUint64(ts)))
+	den := new(big.Int).Mul(new(big.Int).SetUint64(ts), big.NewInt(1000))
+	q, m := new(big.Int).DivMod(num, den, new(big.Int)) // floor division, m >= 0
+	ms := q.Int64()
+	if m.Sign() != 0 {
+		ms++
+	}
+	return startS*1000 + ms
+}
+
 func vfC04Sweep(r *rep.R, w vfWorld, rp *ora.Rep, cfg vfC04Cfg, n int64, posName string, sampled *int) {
 	a := w.Asset
+	atoUS := vfAtoUS(cfg.ato)
 	inf := cfg.ato == "inf"
 	mode := cfg.mode
 	if rp.ContentType == "image" {
@@ -152,13 +184,9 @@ func vfC04Sweep(r *rep.R, w vfWorld, rp *ora.Rep, cfg vfC04Cfg, n int64, posName
 	var u string
 	if rp.ContentType == "audio" {
 		as, ae := a.AudioSegTimes(rp, n)
-		Av := a.AvailMS(a.Ref, n, cfg.startS, cfg.atoMS)
-		num := ae * 1000
-		ams := int64(num / rp.Timescale)
-		if num%rp.Timescale != 0 {
-			ams++
-		}
-		Aa := cfg.startS*1000 + ams - cfg.atoMS
+		_, _, ve := a.LiveSeg(a.Ref, n)
+		Av := vfAvailExact(ve, a.Ref.Timescale, cfg.startS, atoUS)
+		Aa := vfAvailExact(ae, rp.Timescale, cfg.startS, atoUS)
 		Alo, Ahi = Av, Aa
 		if Aa < Av {
 			Alo, Ahi = Aa, Av
@@ -169,8 +197,8 @@ func vfC04Sweep(r *rep.R, w vfWorld, rp *ora.Rep, cfg vfC04Cfg, n int64, posName
 			u = vfMediaURL(rp, uint64(cfg.startNr()+n))
 		}
 	} else {
-		_, ws, _ := a.LiveSeg(rp, n)
-		Alo = a.AvailMS(rp, n, cfg.startS, cfg.atoMS)
+		_, ws, we := a.LiveSeg(rp, n)
+		Alo = vfAvailExact(we, rp.Timescale, cfg.startS, atoUS)
 		Ahi = Alo
 		if mode == "time" {
 			u = vfMediaURL(rp, ws)
@@ -295,7 +323,7 @@ func vfC04Sweep(r *rep.R, w vfWorld, rp *ora.Rep, cfg vfC04Cfg, n int64, posName
 	atoc := "0"
 	if inf {
 		atoc = "inf"
-	} else if cfg.atoMS > 0 {
+	} else if atoUS > 0 {
 		atoc = ">0"
 	}
 	r.Class(fmt.Sprintf("%s|%s|%s|start>0=%v|snr>0=%v|tsbd=%d|ato=%s|n=%s", w.Ref.Path, rp.ContentType, cfg.mode, cfg.startS != 0, cfg.startNr() != 0, cfg.tsbd, atoc, posName))
